@@ -39,6 +39,15 @@ var c11Probes = []string{
 	".a[", ".a |", "(", ")", "[", "{", "}", ".. |", "| .", ".[", "\"", ".a as", "$x", ".. | .. | ..", ".[] |= (.. | .)", "..|=\"x\"", ".a = .b = .c", ". as $x | $x | $x", "..[]", ".[][]", ".[].[]", "....", ".a.[0]", ".\"a\"", ".[\"a\"]", ".a?", ".[]?", "-1", "--1", "1 -", ".a //", "// .a",
 }
 
+var exprTokens = []string{
+	".", "..", "...", ".a", ".b", ".[]", ".[0]", ".[-1]", ".[1:2]", "[", "]", "{", "}", "(", ")", "|", ",", ":", ";", "=", "|=", "+=", "-=", "*=", "+", "-", "*", "/", "%", "//", "==", "!=", ">", "<", ">=", "<=",
+	"and", "or", "not", "as", "$x", "$", "ref", "select", "map", "sort_by", "sort", "keys", "length", "has", "del", "with", "with_entries", "to_entries", "from_entries", "ireduce", "eval", "env(HOME)", "strenv(X)",
+	"\"s\"", "\"\\(.)\"", "\"", "1", "-1", "0x10", "1.5", "1e3", "true", "null", "~", "di", "fi", "filename", "path", "parent", "key", "line", "column", "tag", "style", "kind", "anchor", "alias", "explode", "split_doc",
+	"line_comment", "head_comment", "comments=", "@json", "@yaml", "@base64", "@base64d", "@csv", "to_json(0)", "from_yaml", "test", "match", "capture", "sub", "split", "join", "contains", "unique", "unique_by", "group_by",
+	"flatten(1)", "flatten", "pick", "omit", "pivot", "reverse", "min", "max", "any", "all", "any_c", "all_c", "first", "collect", "filter", "map_values", "load(\"x\")", "load_str", "error", "to_number", "to_string", "trim", "upcase",
+	"parent(2)", "*+", "*d", "*?", "=c", "|=c", ".\"quoted key\"", ".a?", ".[]?", "#c", "\n", "\t", "''", "`", "^", "&", "!", "?", "@", "\\",
+}
+
 type damage struct {
 	Kind string `json:"kind"`
 	At   int    `json:"at"`
@@ -149,6 +158,23 @@ func (C11) Generate(c *Ctx, r *Rand, index int) *Scenario {
 		sc.WatchdogS = 3
 		sc.Meta["special"] = "lua-nonterminating-program"
 	}
+	if sc.MetaString("special") == "" && rs.Chance(1, 25) {
+		// not derived from a valid document at all
+		n := rs.Range(1, 200)
+		b := make([]byte, n)
+		if rs.Chance(1, 2) {
+			for i := range b {
+				b[i] = byte(rs.Intn(256))
+			}
+		} else {
+			const soup = "{}[]<>()=:;,.-_#&*!|'\"%@`~^?/\\ \t\n\r0123456789abcxyzéß"
+			for i := range b {
+				b[i] = soup[rs.Intn(len(soup))]
+			}
+		}
+		text = string(b)
+		sc.Meta["input"] = "arbitrary-bytes"
+	}
 	data := []byte(text)
 	rd := r.Fork("damage")
 	nDamage := rd.Weighted([]int{25, 50, 18, 7})
@@ -168,7 +194,15 @@ func (C11) Generate(c *Ctx, r *Rand, index int) *Scenario {
 
 	// expression
 	var expr string
-	switch rs.Weighted([]int{30, 40, 10, 20}) {
+	switch rs.Weighted([]int{30, 40, 10, 20, 12}) {
+	case 4:
+		// token soup: a random sequence over the lexer's vocabulary
+		n := rs.Range(2, 12)
+		var parts []string
+		for i := 0; i < n; i++ {
+			parts = append(parts, Pick(rs, exprTokens))
+		}
+		expr = strings.Join(parts, Pick(rs, []string{" ", " ", ""}))
 	case 0:
 		expr = GenExpr(r.Fork("expr")).Combined()
 	case 1:
